@@ -706,6 +706,51 @@ fn obs_loop_text(g: &str, i0: i32, step: i32, bound: i32, m: i32, c: i32) -> Str
   )
 }
 
+/// `srloop|srorig G BOUND GI K (i0 st)*K ND (base m c)*ND FUEL`: a loop with K basic induction
+/// variables, guard on variable GI (printed, so it is never eliminated), ND derived variables, each
+/// printed. Output: all printed numbers in order.
+fn sr_line(t: &[&str], optimised: bool) -> String {
+  let nums: Vec<i64> = t[2..].iter().map(|x| x.parse::<i64>().unwrap_or(0)).collect();
+  if nums.len() < 3 {
+    return "bad-line".to_string();
+  }
+  let (bound, gi, k) = (nums[0], nums[1] as usize, nums[2] as usize);
+  if nums.len() < 3 + 2 * k + 1 {
+    return "bad-line".to_string();
+  }
+  let nd = nums[3 + 2 * k] as usize;
+  if nums.len() != 3 + 2 * k + 1 + 3 * nd + 1 || gi >= k {
+    return "bad-line".to_string();
+  }
+  let inv = match t[1] {
+    "lt" => "ge",
+    "le" => "gt",
+    "gt" => "le",
+    _ => "lt",
+  };
+  let mut lvs = String::new();
+  let mut incs = String::new();
+  for v in 0..k {
+    lvs.push_str(&format!("v{v} {} n{v} ", nums[3 + 2 * v]));
+    incs.push_str(&format!("bin n{v} add v{v} {} ", nums[4 + 2 * v]));
+  }
+  let mut body = format!("bin cc {inv} v{gi} {bound} sif cc 0 {{ brk 0 }} call print 1 v{gi} _ ");
+  for d in 0..nd {
+    let (b, m, c) = (nums[4 + 2 * k + 3 * d], nums[5 + 2 * k + 3 * d], nums[6 + 2 * k + 3 * d]);
+    if c == 0 {
+      body.push_str(&format!("bin d{d} mul v{b} {m} "));
+    } else if m == 1 {
+      body.push_str(&format!("bin d{d} add v{b} {c} "));
+    } else {
+      body.push_str(&format!("bin t{d} mul v{b} {m} bin d{d} add t{d} {c} "));
+    }
+    body.push_str(&format!("call print 1 d{d} _ "));
+  }
+  let text = format!("fn f0 0 while {k} {lvs}{{ {body}{incs}}} r ret r end");
+  let fuel = *nums.last().unwrap() as u64;
+  run_loop_text(&text, optimised, fuel).split(" ret ").next().unwrap_or("bad").to_string()
+}
+
 fn iv_line(t: &[&str], optimised: bool) -> String {
   if t.len() != 8 {
     return "bad-line".to_string();
@@ -713,8 +758,12 @@ fn iv_line(t: &[&str], optimised: bool) -> String {
   let p: Vec<i32> = t[2..7].iter().map(|x| x.parse::<i32>().unwrap_or(0)).collect();
   let fuel: u64 = t[7].parse().unwrap_or(100);
   let text = obs_loop_text(t[1], p[0], p[1], p[2], p[3], p[4]);
+  run_loop_text(&text, optimised, fuel)
+}
+
+fn run_loop_text(text: &str, optimised: bool, fuel: u64) -> String {
   let mut heap = Heap::new();
-  let before = parse_program(&mut heap, &text).expect("well-formed loop");
+  let before = parse_program(&mut heap, text).expect("well-formed loop");
   let prog = if optimised {
     match apply_pass(&mut heap, &before, "loop", 31) {
       Ok(f) => f,
@@ -857,6 +906,8 @@ fn kernel_line(t: &[&str]) -> String {
         _ => "bad-line".to_string(),
       }
     }
+    "srloop" => sr_line(t, true),
+    "srorig" => sr_line(t, false),
     "ivloop" => iv_line(t, true),
     "ivorig" => iv_line(t, false),
     _ => "bad-op".to_string(),
